@@ -962,6 +962,55 @@ func collectThenSort(fn *ssa.Function, li *loopInfo) string {
 			}
 		}
 	}
+	// control flow inside the loop may depend on the current element only: a branch that looks at what was collected so
+	// far (or an early exit) makes the collected set depend on the iteration order
+	exiting := 0
+	for b := range li.blocks {
+		for _, sb := range b.Succs {
+			if !li.blocks[sb] {
+				exiting++
+			}
+		}
+		if b == li.header || len(b.Instrs) == 0 {
+			continue
+		}
+		iff, ok := b.Instrs[len(b.Instrs)-1].(*ssa.If)
+		if !ok {
+			continue
+		}
+		seenV := map[ssa.Value]bool{}
+		var carried func(v ssa.Value, d int) bool
+		carried = func(v ssa.Value, d int) bool {
+			if v == nil || seenV[v] || d > 12 {
+				return false
+			}
+			seenV[v] = true
+			switch a := v.(type) {
+			case *ssa.Phi:
+				if a.Block() == li.header {
+					return true
+				}
+			case *ssa.UnOp:
+				if al, ok := a.X.(*ssa.Alloc); ok && !li.blocks[al.Block()] {
+					return true // reads a variable that lives across iterations
+				}
+			}
+			if in, ok := v.(ssa.Instruction); ok {
+				for _, op := range in.Operands(nil) {
+					if op != nil && *op != nil && carried(*op, d+1) {
+						return true
+					}
+				}
+			}
+			return false
+		}
+		if carried(iff.Cond, 0) {
+			return "a branch inside the loop depends on values carried across iterations (what was collected so far)"
+		}
+	}
+	if exiting > 1 {
+		return "the loop can be left early (several exits)"
+	}
 	// collected slices: header phis fed by append on the back edge
 	var collected []*ssa.Phi
 	for _, in := range li.header.Instrs {
